@@ -20,6 +20,11 @@ def make_cases(rng, n):
         ip = rng.choice([RDF_TYPE, RDF_TYPE, RDF_TYPE, EX + 'inst'])
         g = gen.gen_graph(rng, inst_prop=ip) if rng.random() < 0.75 else gen.gen_schema_graph(rng, inst_prop=ip)
         base_cfg = gen.gen_cfg(rng, g, inst_prop=ip, presentation=False)
+        if rng.random() < 0.2:
+            # shapes emptied and removed: the instantiation property is ignored, so a class survives only through other features
+            base_cfg['ignore_ns'] = [RDF] if ip == RDF_TYPE else [EX]
+            base_cfg['remove_empty'] = True
+            base_cfg['inverse'] = rng.random() < 0.7
         ths = gen.threshold_grid(g, ip)
         for th in rng.sample(ths, min(3, len(ths))):
             c = dict(base_cfg)
